@@ -333,4 +333,4 @@ def run(ctx):
     ctx.guard(c12.r12_8)
     # hidden state by mutation: a step must not update, in place, tensors it was handed
     from . import c05
-    ctx.guard(c05.r05_5)
+    ctx.guard(c05.r05_5_solvers)
